@@ -381,6 +381,26 @@ func (e *Env) handlerOps(i int, tn string, stream grpc.ServerStream, ops []strin
 	ctx := stream.Context()
 	for _, op := range ops {
 		switch {
+		case op == "r+":
+			// the usual receive loop of a handler: until io.EOF; any other failure ends the handler with that error
+			for {
+				var m Msg
+				rr.SrvRecvStarted++
+				e.where("handler:RecvMsg")
+				err := stream.RecvMsg(&m)
+				e.where("")
+				rr.SrvRecvRes = append(rr.SrvRecvRes, es(err))
+				e.rec.ev(tn, "RecvMsg", es(err))
+				if err == io.EOF {
+					break
+				}
+				if err != nil {
+					return err
+				}
+				rr.SrvRecv = append(rr.SrvRecv, string(m.Payload))
+				e.monitorPrefix(i, "srv")
+				e.received(&m)
+			}
 		case op == "r" || op == "r*" || op == "r!":
 			for {
 				var m Msg
